@@ -9,6 +9,7 @@ import (
 	"path/filepath"
 	"sort"
 	"strings"
+	"time"
 )
 
 type Mismatch struct {
@@ -65,6 +66,7 @@ type Runner struct {
 	nextDoc   int
 	maxMis    int
 	CoqCases  []string // model commands with the model's answers, for the vm_compute cross-check
+	pending   []pendingQuery
 }
 
 func (rn *Runner) Thorough() bool { return rn.Tier == "thorough" }
@@ -133,28 +135,61 @@ func (rn *Runner) NewDoc(evs []Event) *Doc {
 	return d
 }
 
-func (rn *Runner) DropDoc(d *Doc) { rn.M.Ask(fmt.Sprintf("(drop %d)", d.ID)) }
+func (rn *Runner) DropDoc(d *Doc) {
+	rn.Flush()
+	rn.M.Ask(fmt.Sprintf("(drop %d)", d.ID))
+}
 
-// CheckQuery runs one query case on both sides. nontrivial classifies the agreed result.
+type pendingQuery struct {
+	q          *QCase
+	clause     string
+	impl       string
+	nontrivial func(res string) bool
+}
+
+// CheckQuery runs one query case on the implementation at once and queues the model's
+// side; the comparison happens when the queue is flushed (pipelined co-process).
 func (rn *Runner) CheckQuery(q *QCase, clause string, nontrivial func(res string) bool) (string, bool) {
+	t0 := time.Now()
 	impl := q.RunImpl()
-	cmd := q.ModelCmd()
-	model := rn.M.Ask(cmd)
-	key := q.Family + "|" + q.Text + "|" + q.Start.String() + "|" + fmt.Sprint(q.Doc.ID) + "|" + q.Env.Show()
-	rn.Eval(key, nontrivial != nil && nontrivial(model))
-	rn.Count("result:" + resultKind(model))
-	if len(rn.CoqCases) < 400 && rn.St.Evaluations%7 == 0 {
-		rn.CoqCases = append(rn.CoqCases, sxEvents(q.Doc.Events)+"\t"+cmd+"\t"+model)
+	tImpl += time.Since(t0)
+	rn.pending = append(rn.pending, pendingQuery{q, clause, impl, nontrivial})
+	if len(rn.pending) >= 512 {
+		rn.Flush()
 	}
-	ok := agree(impl, model)
-	if !ok && !rn.TooMany() {
-		q2, impl2, model2 := rn.shrinkQuery(q, impl, model)
-		rn.Report(&Replay{
-			Family: q2.Family, Clause: clause, Kind: "query", Events: q2.Doc.Events, Start: q2.Start.String(),
-			Env: q2.Env, Text: q2.Text, ExprSx: SxExpr(q2.E), Doc: showEvents(q2.Doc.Events), Impl: impl2, Model: model2,
-		}, fmt.Sprintf("%s from %s on <%s>: implementation %s, model %s", q2.Text, q2.Start, showEvents(q2.Doc.Events), impl2, model2))
+	return impl, true
+}
+
+func (rn *Runner) Flush() {
+	if len(rn.pending) == 0 {
+		return
 	}
-	return impl, ok
+	batch := rn.pending
+	rn.pending = nil
+	cmds := make([]string, len(batch))
+	for i, p := range batch {
+		cmds[i] = p.q.ModelCmd()
+	}
+	t0 := time.Now()
+	answers := rn.M.AskAll(cmds)
+	tModel += time.Since(t0)
+	for i, p := range batch {
+		q, impl, model := p.q, p.impl, answers[i]
+		key := q.Family + "|" + q.Text + "|" + q.Start.String() + "|" + fmt.Sprint(q.Doc.ID) + "|" + q.Env.Show()
+		rn.Eval(key, p.nontrivial != nil && p.nontrivial(model))
+		rn.Count("result:" + resultKind(model))
+		rn.Count("family:" + q.Family)
+		if len(rn.CoqCases) < 400 && rn.St.Evaluations%7 == 0 {
+			rn.CoqCases = append(rn.CoqCases, sxEvents(q.Doc.Events)+"\t"+cmds[i]+"\t"+model)
+		}
+		if !agree(impl, model) && !rn.TooMany() {
+			q2, impl2, model2 := rn.shrinkQuery(q, impl, model)
+			rn.Report(&Replay{
+				Family: q2.Family, Clause: p.clause, Kind: "query", Events: q2.Doc.Events, Start: q2.Start.String(),
+				Env: q2.Env, Text: q2.Text, ExprSx: SxExpr(q2.E), Doc: showEvents(q2.Doc.Events), Impl: impl2, Model: model2,
+			}, fmt.Sprintf("%s from %s on <%s>: implementation %s, model %s", q2.Text, q2.Start, showEvents(q2.Doc.Events), impl2, model2))
+		}
+	}
 }
 
 func resultKind(s string) string {
@@ -180,6 +215,8 @@ func resultKind(s string) string {
 }
 
 func (rn *Runner) Finish(out string) {
+	rn.Flush()
+	profReport()
 	keys := make([]string, 0, len(rn.St.Dist))
 	for k := range rn.St.Dist {
 		keys = append(keys, k)
